@@ -1,6 +1,16 @@
 """Per-property configuration of tools/check.py."""
 
 PROPS = {
+    "C16": {
+        "modules": ["BioSeq.Props.C16"],
+        "programs": "c16",
+        "rule": "three layers: (i) op lines calling dna_seq/iupac_seq directly (source inclusion) on valid literals of lengths 0..300 incl. word-boundary lengths, "
+                "literals with one offending character (lower case, N/U/X, digits, whitespace, multi-byte UTF-8), all 128 single ASCII characters, compared with the model and "
+                "with the runtime parser; (ii) a generated crate of valid dna!/iupac!/kmer! literals compiled with the real macros in dev and release, each value compared with the model "
+                "and with runtime parsing (length, symbols, hash events, display, ==); (iii) a generated crate of invalid literals, one per line: rustc must report an error on exactly "
+                "the lines the model rejects; distinct = distinct line / literal",
+        "trusted": ["rustc turning a proc-macro Err into a compile error; quote!/bitarr! expansion (exercised by the compiled programs, not modelled)"],
+    },
     "C18": {
         "modules": ["BioSeq.Props.C18"],
         "rule": "serde op lines: owned sequences of 7 codecs from every production route (parsed, copied from offset slices, reversed, truncated (spare capacity), "
